@@ -389,6 +389,19 @@ fn write_data_to_stream<F: Read + Write + Seek>(
     })
 }
 
+/// Overwrites the bytes in `start..end` of a chain with zeros.
+fn zero_fill<W: Write + Seek>(
+    chain: &mut W,
+    start: u64,
+    end: u64,
+) -> io::Result<()> {
+    if start < end {
+        chain.seek(SeekFrom::Start(start))?;
+        io::copy(&mut io::repeat(0).take(end - start), chain)?;
+    }
+    Ok(())
+}
+
 /// If `new_stream_len` is less than the stream's current length, then the
 /// stream will be truncated.  If it is greater than the stream's current size,
 /// then the stream will be padded with zero bytes.
@@ -411,6 +424,8 @@ fn resize_stream<F: Read + Write + Seek>(
             // into a new mini chain.
             let mut chain = minialloc.open_mini_chain(consts::END_OF_CHAIN)?;
             chain.set_len(new_stream_len)?;
+            // Mini sectors are not initialized when (re)allocated.
+            zero_fill(&mut chain, 0, new_stream_len)?;
             chain.start_sector_id()
         } else {
             // Case 1b: The new length is large enough that it should be placed
@@ -433,6 +448,11 @@ fn resize_stream<F: Read + Write + Seek>(
             let mut chain = minialloc.open_mini_chain(old_start_sector)?;
             chain.set_len(new_stream_len)?;
             debug_assert_eq!(chain.start_sector_id(), old_start_sector);
+            if new_stream_len > old_stream_len {
+                // Neither the rest of the old final mini sector nor any
+                // newly allocated mini sectors are known to be zero.
+                zero_fill(&mut chain, old_stream_len, new_stream_len)?;
+            }
             old_start_sector
         } else {
             // Case 2c: The new length is too large to fit in a mini chain.
@@ -470,10 +490,22 @@ fn resize_stream<F: Read + Write + Seek>(
             // Case 3c: The new length is still too large to fit in a mini
             // chain.  Therefore, we just need to adjust the length of the
             // existing chain.
+            let sector_len = minialloc.version().sector_len() as u64;
             let mut chain =
                 minialloc.open_chain(old_start_sector, SectorInit::Zero)?;
             chain.set_len(new_stream_len)?;
             debug_assert_eq!(chain.start_sector_id(), old_start_sector);
+            if new_stream_len > old_stream_len {
+                // New sectors are zeroed when allocated, but the rest of the
+                // old final sector may hold data from before an earlier
+                // truncation.
+                let old_end = old_stream_len.div_ceil(sector_len) * sector_len;
+                zero_fill(
+                    &mut chain,
+                    old_stream_len,
+                    new_stream_len.min(old_end),
+                )?;
+            }
             old_start_sector
         }
     };
